@@ -31,8 +31,9 @@ theorem spmv_den (a0 a1 a2 : V4) (b : Region) (i : Fin 4) :
       den (a0.get i) * den (b i.val) + den (a1.get i) * den (b (4 + i.val)) + den (a2.get i) * den (b (8 + i.val)) := by
   simp only [spmv_avx_4x12, load_avx, den_add_avx, den_mult_avx, get_load, Region.shift_apply]
 
+/-- the operand order of the lane products is free (`mult_avx_comm` is a permutation lemma: `simp` orders both sides) -/
 theorem spmv_a_eq (a0 a1 a2 : V4) (b : Region) : spmv_avx_4x12_a a0 a1 a2 b = spmv_avx_4x12 a0 a1 a2 b := by
-  simp only [spmv_avx_4x12_a, spmv_avx_4x12, load_avx, load_avx_a]
+  simp only [spmv_avx_4x12_a, spmv_avx_4x12, load_avx, load_avx_a, mult_avx_comm]
 
 /-! #### dot_avx(_a) -/
 
@@ -40,9 +41,16 @@ theorem store_get (r : Region) (v : V4) :
     (Avx2.store r v) 0 = v.l0 ∧ (Avx2.store r v) 1 = v.l1 ∧ (Avx2.store r v) 2 = v.l2 ∧ (Avx2.store r v) 3 = v.l3 := by
   refine ⟨rfl, rfl, rfl, rfl⟩
 
+/-- reading a lane straight from the register (`_mm256_extract_epi64`) -/
+theorem extract_get (v : V4) :
+    Avx2.extract_epi64 v 0 = v.l0 ∧ Avx2.extract_epi64 v 1 = v.l1 ∧ Avx2.extract_epi64 v 2 = v.l2 ∧
+    Avx2.extract_epi64 v 3 = v.l3 := by
+  refine ⟨rfl, rfl, rfl, rfl⟩
+
 theorem dot_den (a0 a1 a2 : V4) (b : Region) : den (dot_avx a0 a1 a2 b) = dot12 a0 a1 a2 b 0 := by
+  -- the four lanes, whether they go through a stored temporary or are extracted from the register
   simp only [dot_avx, store_avx, den_add_r, (store_get _ _).1, (store_get _ _).2.1, (store_get _ _).2.2.1,
-    (store_get _ _).2.2.2]
+    (store_get _ _).2.2.2, (extract_get _).1, (extract_get _).2.1, (extract_get _).2.2.1, (extract_get _).2.2.2]
   have h0 := spmv_den a0 a1 a2 b 0
   have h1 := spmv_den a0 a1 a2 b 1
   have h2 := spmv_den a0 a1 a2 b 2
@@ -54,15 +62,26 @@ theorem dot_den (a0 a1 a2 : V4) (b : Region) : den (dot_avx a0 a1 a2 b) = dot12 
   rw [e3]
   ring
 
+set_option linter.unusedTactic false in
+set_option linter.unreachableTactic false in
 theorem dot_a_eq (a0 a1 a2 : V4) (b : Region) : dot_avx_a a0 a1 a2 b = dot_avx a0 a1 a2 b := by
-  simp only [dot_avx_a, dot_avx, spmv_a_eq, store_avx, store_avx_a]
+  -- (`store_avx_a` is only translated while some kernel calls it: the second alternative is for a text without it)
+  first
+    | simp only [dot_avx_a, dot_avx, spmv_a_eq, store_avx, store_avx_a, (store_get _ _).1, (store_get _ _).2.1,
+        (store_get _ _).2.2.1, (store_get _ _).2.2.2, (extract_get _).1, (extract_get _).2.1, (extract_get _).2.2.1,
+        (extract_get _).2.2.2]
+    | simp only [dot_avx_a, dot_avx, spmv_a_eq, store_avx, (store_get _ _).1, (store_get _ _).2.1,
+        (store_get _ _).2.2.1, (store_get _ _).2.2.2, (extract_get _).1, (extract_get _).2.1, (extract_get _).2.2.1,
+        (extract_get _).2.2.2]
 
 /-! #### mmult_avx_4x12(_a): four sparse products, 4x4 transpose, column sums -/
 
 theorem permute_32 (a b : V4) : Avx2.permute2f128 a b 32 = ⟨a.l0, a.l1, b.l0, b.l1⟩ := rfl
 theorem permute_49 (a b : V4) : Avx2.permute2f128 a b 49 = ⟨a.l2, a.l3, b.l2, b.l3⟩ := rfl
 
-/-- the permute/unpack network is the 4x4 transpose -/
+/-- the permute/unpack network is the 4x4 transpose.  (Documentation only: the proofs below evaluate the shuffles
+  themselves — `permute_32`, `permute_49`, `unpacklo_pd`, `unpackhi_pd` on explicit lanes — so the two stages may come
+  in either order, or be replaced by any other network of these intrinsics that yields the columns.) -/
 theorem transpose4 (r0 r1 r2 r3 : V4) :
     Avx2.unpacklo_pd (Avx2.permute2f128 r0 r2 32) (Avx2.permute2f128 r1 r3 32) = ⟨r0.l0, r1.l0, r2.l0, r3.l0⟩ ∧
     Avx2.unpackhi_pd (Avx2.permute2f128 r0 r2 32) (Avx2.permute2f128 r1 r3 32) = ⟨r0.l1, r1.l1, r2.l1, r3.l1⟩ ∧
@@ -92,8 +111,7 @@ theorem mmult_4x12_den (a0 a1 a2 : V4) (M : Region) (i : Fin 4) :
   have s2 := spmv_row_sum a0 a1 a2 M 24
   have s3 := spmv_row_sum a0 a1 a2 M 36
   rw [Region.shift_zero] at s0
-  simp only [mmult_avx_4x12, den_add_avx, (transpose4 _ _ _ _).1, (transpose4 _ _ _ _).2.1, (transpose4 _ _ _ _).2.2.1,
-    (transpose4 _ _ _ _).2.2.2]
+  simp only [mmult_avx_4x12, den_add_avx, permute_32, permute_49, Avx2.unpacklo_pd, Avx2.unpackhi_pd]
   match i with
   | 0 => simp only [V4.get, Fin.val_zero, Nat.mul_zero]; exact s0
   | 1 => simp only [V4.get, Fin.val_one, Nat.mul_one]; exact s1
@@ -101,7 +119,7 @@ theorem mmult_4x12_den (a0 a1 a2 : V4) (M : Region) (i : Fin 4) :
   | 3 => simp only [V4.get, e3]; exact s3
 
 theorem mmult_4x12_a_eq (a0 a1 a2 : V4) (M : Region) : mmult_avx_4x12_a a0 a1 a2 M = mmult_avx_4x12 a0 a1 a2 M := by
-  simp only [mmult_avx_4x12_a, mmult_avx_4x12, spmv_a_eq]
+  simp only [mmult_avx_4x12_a, mmult_avx_4x12, spmv_a_eq, permute_32, permute_49, Avx2.unpacklo_pd, Avx2.unpackhi_pd]
 
 
 /-! #### mmult_avx(_a): the full 12x12 product = three 4x12 blocks -/
@@ -209,8 +227,7 @@ theorem mmult_4x12_8_den (a0 a1 a2 : V4) (M : Region) (i : Fin 4) (hb : ∀ k, k
   have s2 := spmv8_row_sum a0 a1 a2 M 24 (fun k hk => hb _ (by omega))
   have s3 := spmv8_row_sum a0 a1 a2 M 36 (fun k hk => hb _ (by omega))
   rw [Region.shift_zero] at s0
-  simp only [mmult_avx_4x12_8, den_add_avx, (transpose4 _ _ _ _).1, (transpose4 _ _ _ _).2.1, (transpose4 _ _ _ _).2.2.1,
-    (transpose4 _ _ _ _).2.2.2]
+  simp only [mmult_avx_4x12_8, den_add_avx, permute_32, permute_49, Avx2.unpacklo_pd, Avx2.unpackhi_pd]
   match i with
   | 0 => simp only [V4.get, Fin.val_zero, Nat.mul_zero]; exact s0
   | 1 => simp only [V4.get, Fin.val_one, Nat.mul_one]; exact s1
